@@ -105,7 +105,15 @@ def _lat(j):
     return float(Moon.geocentric_ecliptical_pos(Epoch(j))[1])
 
 
+_STEPPER = Epoch(2451545.0)
+
+
 def _decl(j):
+    # every other evaluation moves one long-lived Epoch object to the instant with set() (a
+    # caller's loop variable) instead of building a new one
+    if int(j * 4.0) % 2:
+        _STEPPER.set(j)
+        return float(Moon.apparent_equatorial_pos(_STEPPER)[1])
     return float(Moon.apparent_equatorial_pos(Epoch(j))[1])
 
 
@@ -237,6 +245,14 @@ def body_illum(case):
             "show": {"k": k, "geometry": want}}
 
 
+def _NODE_POLY(T):
+    return 125.0445479 + T * (-1934.1362891 + T * (0.0020754 + T * (1.0 / 467441.0 - T / 60616000.0)))
+
+
+def _PERIGEE_POLY(T):
+    return 83.3532465 + T * (4069.0137287 + T * (-0.0103200 + T * (-1.0 / 80053.0 + T / 18999000.0)))
+
+
 def body_secular(case):
     j = case["jde"]
     out = {}
@@ -251,6 +267,25 @@ def body_secular(case):
                             "(%.7f +- 1%% expected)" % (name, got, j, rate),
                             site="Moon.longitude_mean_" + ("ascending_node" if name == "node" else "perigee"),
                             kind="secular_rate", jde=j, got=got, want=rate)
+    # the published secular polynomials (Chapront ELP2000-82 as quoted by Meeus, chapter 47; the
+    # older IAU 1980 node polynomial stays within 0.003 deg of it over -2000..4000): longitude to
+    # 0.01 deg, motion over 30 d to 1e-4 of itself
+    T = (j - 2451545.0) / 36525.0
+    T2 = (j + 30.0 - 2451545.0) / 36525.0
+    for name, fn, poly in (("node", Moon.longitude_mean_ascending_node, _NODE_POLY),
+                           ("perigee", Moon.longitude_mean_perigee, _PERIGEE_POLY)):
+        a = float(fn(Epoch(j)))
+        site = "Moon.longitude_mean_" + ("ascending_node" if name == "node" else "perigee")
+        off = em.wrap180(a - poly(T))
+        if not abs(off) <= 0.01:
+            raise Violation("mean %s longitude at JDE %.3f is %.6f deg, the published secular polynomial "
+                            "gives %.6f (off %.4f deg)" % (name, j, a, poly(T) % 360.0, off),
+                            site=site, kind="secular_longitude", jde=j, off=off)
+        want = em.wrap180(poly(T2) - poly(T)) / 30.0
+        if not abs(out[name] - want) <= 1e-4 * abs(want):
+            raise Violation("mean %s longitude moves %.8f deg/d between JDE %.3f and 30 d later; the "
+                            "published secular polynomial moves %.8f deg/d there" % (name, out[name], j, want),
+                            site=site, kind="secular_rate_of_date", jde=j, got=out[name], want=want)
     y = _year_of(j)
     a = float(Moon.longitude_mean_ascending_node(Epoch(j)))
     labels = ["secular_era:" + _era(y)]
